@@ -117,7 +117,7 @@ PAIRS = [
     # (sync spath suffix, async spath suffix) relative to flavour objects; None => same name
     ("cache", "get"), ("cache", "get_mut"), ("cache", "get_ttl"), ("cache", "try_update"), ("cache", "try_insert_in"), ("cache", "try_remove"), ("cache", "wait"),
     ("cache", "clear"), ("cache", "close"), ("cache", "max_cost"), ("cache", "update_max_cost"), ("cache", "len"),
-    ("processor", "handle_item"), ("processor", "handle_insert_event"), ("processor", "handle_cleanup_event"), ("processor", "on_evict"), ("processor", "track_admission"),
+    ("processor", "handle_item"), ("processor", "handle_insert_event"), ("processor", "handle_clear_event"), ("processor", "handle_cleanup_event"), ("processor", "on_evict"), ("processor", "track_admission"),
     ("processor", "prepare_evict"), ("processor", "calculate_internal_cost"), ("processor", "new"),
     ("cleaner", "handle_item"), ("cleaner", "clean"),
     ("policy", "add"), ("policy", "push"), ("policy", "close"), ("policy", "remove"), ("policy", "update"), ("policy", "cost"), ("policy", "clear"), ("policy", "max_cost"), ("policy", "update_max_cost"),
@@ -140,6 +140,8 @@ ACCEPTED = {
     ("ring::push", "path", "async"): "see sync",
     ("cache::wait", "path", "sync"): "crossbeam channels cannot be closed by the receiver, so the sync wait() re-reads is_closed after the enqueue (F8 fix); async closes the channel instead",
     ("cache::wait", "path", "async"): "see sync",
+    ("cache::clear", "path", "sync"): "crossbeam channels cannot be closed by the receiver, so the sync clear() re-reads is_closed after the enqueue (as wait() does); async closes and drains the channel instead (R11.4 checks each side)",
+    ("cache::clear", "path", "async"): "see sync",
     ("cache::close", "path", "sync"): "sync sets is_closed before stopping the processor (F8 fix), async after; R12.2 only demands must-pass-through",
     ("cache::close", "path", "async"): "see sync",
     ("cache::try_remove", "path", "sync"): "same effects; the Delete send is awaited in async and a blocking send in sync, both ignore its error",
@@ -223,6 +225,7 @@ def check_sibling_diff(rep, fl_s, fl_a, rule="R19.2"):
 # single effects accepted to exist on one side only: (pair, effect label) -> reason
 ACCEPTED_EFFECTS = {
     ("cache::wait", "load(is_closed)"): "present on both sides; counts differ (sync re-check)",
+    ("cache::clear", "load(is_closed)"): "present on both sides; counts differ (sync re-check)",
     ("store::sweeper", "Vec::push"): "async collects swept items with push in a for loop, sync with filter_map/collect",
 }
 
